@@ -34,7 +34,7 @@ From Soy Require Import Model.Bytes Model.Num Model.Values Model.Outcome Model.A
   Model.Compile Model.ExprPipeline Model.InterpJson Spec.Safety
   Proofs.SafetyPure Proofs.SafetyProofs Proofs.SafetyEntry Proofs.SafetyFuel Proofs.SafetyCompile Proofs.SafetyMono
   Proofs.SafetyDepth Proofs.SafetyBytes Proofs.SafetyUser Proofs.SafetyExt Proofs.SafetyRefine Proofs.SafetyMarker.
-From Soy Require Import Model.JsGen Spec.SafetyJs Proofs.SafetyJsGen Proofs.SafetyJsFuel.
+From Soy Require Import Model.JsGen Spec.SafetyJs Proofs.SafetyJsGen Proofs.SafetyJsFuel Proofs.SafetyJsMono.
 From Soy Require Import Model.NumJson Spec.Json Proofs.MsgIdProofs Proofs.CodecJsonNum Proofs.NumJsonProofs.
 Open Scope N_scope.
 
@@ -619,6 +619,21 @@ Theorem C06_js_inner_budgets_suffice :
   (forall name, jnf (ns_decls (S (length name)) name 0)).
 Proof. exact inner_budgets_suffice. Qed.
 Print Assumptions C06_js_inner_budgets_suffice.
+
+(* the budget is only an approximation index: an answer obtained with some budget is the answer with every larger
+   one (relation "OutOfFuel, or both agree" between two recursive calls, through every visitor:
+   Proofs/SafetyJsMono.v), so from the height of the tree on the answer does not depend on the budget *)
+Theorem C06_js_write_fuel_monotone :
+  forall o f k name body,
+    gen_file o f name body <> OutOfFuel -> gen_file o (f + k) name body = gen_file o f name body.
+Proof. exact gen_file_fuel_monotone. Qed.
+Print Assumptions C06_js_write_fuel_monotone.
+
+Theorem C06_js_write_fuel_independent :
+  forall o f1 f2 name body,
+    (jw_hmax body <= f1)%nat -> (jw_hmax body <= f2)%nat -> gen_file o f1 name body = gen_file o f2 name body.
+Proof. exact gen_file_fuel_independent. Qed.
+Print Assumptions C06_js_write_fuel_independent.
 
 (* the bound is the height, and it is tight: the example file has height 3; 3 suffices, 2 does not *)
 Example C06_ex_js_height :
